@@ -135,6 +135,21 @@ func driverPP(c *Ctx) {
 		g.Indexed = i%3 == 0 // names with an index behind them next to their base name: v1 and v1[0]
 		g.Ladder, g.LadderTo = 20, 257
 		g.Wordy = i%2 == 1
+		if i%16 == 5 {
+			// long runs of printable characters inside a literal, ended by a character that is printed another way
+			// (a quote, a control character, DEL) or by the end of the literal; a second run behind it
+			run := func(n int) string {
+				pat := "recipe-step 0123456789 ABCDEFGHIJKLMNOPQRSTUVWXYZ abcdefghijklmnopqrstuvwxyz ~!@#$%^&*()_+{}|:<>?-=[];',./\\ "
+				return strings.Repeat(pat, n/len(pat)+1)[:n]
+			}
+			n := []int{255, 256, 257, 300, 511, 512, 513, 700}[g.pick(8)]
+			brk := []string{"\"", "\r", "\n", "\x00", "\x7f", "\t", "\r\n", ""}[g.pick(8)]
+			lit := run(n) + brk + []string{"", "tail", run(256 + g.pick(3)), "\""}[g.pick(4)]
+			m := ast.NewDataMessage("longrun", 1+g.pick(100), 1, 1, "H->E", ast.NewListNode(ast.NewASCIINode(lit), ast.NewUintNode(1, 7), ast.NewASCIINode(run(256)+"\n")))
+			c.emit(i, ppEvent(m, "api"))
+			c.count("pp.longrun")
+			continue
+		}
 		if i%4 != 3 {
 			c.emit(i, ppEvent(g.expressible(), "api"))
 			c.count("pp.api")
@@ -426,6 +441,19 @@ func driverSizes(c *Ctx) {
 						f["item"] = projItem(ast.VerifDataItem(filled))
 					}
 					fills = append(fills, f)
+				}
+				// the bytes of a string instead of the string (not a documented fill-in type): refused, or taken like the string
+				if !sameCall {
+					for _, n := range []int{0, 1, 3, 5, 9} {
+						b := []byte(strings.Repeat("x", n))
+						var filled *ast.DataMessage
+						refused, _ := try(func() { filled = tmpl.FillVariables(map[string]interface{}{name: b}) })
+						f := J{"len": n, "refused": refused, "item": J{"f": "none"}, "foreign": true}
+						if !refused {
+							f["item"] = projItem(ast.VerifDataItem(filled))
+						}
+						fills = append(fills, f)
+					}
 				}
 			}
 			ev["fills"] = fills
